@@ -72,12 +72,20 @@ def _tval(model, name):
     return tval(model, name)
 
 
+def _cf(model):
+    from ..absdom import class_fields
+    return class_fields(model)
+
+
 def class_obj(model, verbose, neg, cname=None, extra=None):
     ci = model.cls(CLS, cname or ("AnyButFrom" if neg else "AnyFrom"))
     o = make_operand(model, verbose, "Class", True, cls=ci, tag=f"{ci.name}:{verbose}")
-    o.fields["_Class__is_negated"] = neg
-    o.fields["_Class__verbose"] = verbose
-    o.fields.update(extra or {})
+    from ..absdom import class_fields, flag_field
+    f_neg, f_verb = class_fields(model)
+    o.fields[f_neg] = neg
+    o.fields[f_verb] = verbose
+    for k_, v_ in (extra or {}).items():
+        o.fields[flag_field(model, ci.name, k_) if not k_.startswith("_") else k_] = v_
     return o
 
 
@@ -177,7 +185,10 @@ def run(ctx, model):
                         if op == "-" and l_ is mb and ctx.tier == "quick":
                             continue
                         jobs.append((wide, False, "".join(sorted(l_)), lt, "".join(sorted(r_)), rt, op, order))
+    jobs += digit_chain_jobs(W)
     results = _parallel(ctx, model, sorted(W), jobs)
+    report_non_confluence(ctx, model, "R-SETALG", jobs, results)
+
     def judge(ctx, item):
         (alpha, neg, ma, ta, mb, tb, op, order), (kind, payload) = item
         ma, mb = frozenset(ma), frozenset(mb)
@@ -242,7 +253,7 @@ def run(ctx, model):
                               inp=_inv_shape(text), detail=f"{inp}: pipeline receives {t2!r} (flag {n2}); members must stay {sorted(members)}")
                 continue
             # ~~A == A
-            kind2, v2, hooks2 = apply(model, W, "~", lambda: class_obj(model, v.fields["_Class__verbose"], not neg), None)
+            kind2, v2, hooks2 = apply(model, W, "~", lambda: class_obj(model, v.fields[_cf(model)[1]], not neg), None)
             if kind2 == "ok":
                 d2 = set_of_text(hooks2.handed[-1][0])
                 g2 = {chr(c) for a, z in d2[0] for c in range(a, z + 1)} if d2 else None
@@ -277,8 +288,8 @@ def _eval_chunk(args):
         if kind == "raise":
             out.append(("raise", (v.name, norm_text(v.node) if v.node is not None else None)))
         elif hooks.handed and isinstance(v, Obj):
-            out.append(("ok", (hooks.handed[-1][0], hooks.handed[-1][1], pattern_of(v), v.fields.get("_Class__verbose"),
-                               v.fields.get("_Class__is_negated"))))
+            out.append(("ok", (hooks.handed[-1][0], hooks.handed[-1][1], pattern_of(v), v.fields.get(_cf(model)[1]),
+                               v.fields.get(_cf(model)[0]))))
         else:
             out.append(("raise", ("<no class constructed>", None)))
     return out
@@ -320,9 +331,9 @@ def _guards(ctx, model, W):
     reg = lambda: class_obj(model, "[ac]", False)
     neg = lambda: class_obj(model, "[^ac]", True)
     any_ = lambda: class_obj(model, ".", False, "Any")
-    wg = lambda: class_obj(model, "[A-Za-z0-9_]", False, "AnyWordChar", {"_AnyWordChar__is_global": True})
-    wl = lambda: class_obj(model, "[A-Za-z0-9_]", False, "AnyWordChar", {"_AnyWordChar__is_global": False})
-    nwg = lambda: class_obj(model, "[^A-Za-z0-9_]", True, "AnyButWordChar", {"_AnyButWordChar__is_global": True})
+    wg = lambda: class_obj(model, "[A-Za-z0-9_]", False, "AnyWordChar", {"is_global": True})
+    wl = lambda: class_obj(model, "[A-Za-z0-9_]", False, "AnyWordChar", {"is_global": False})
+    nwg = lambda: class_obj(model, "[^A-Za-z0-9_]", True, "AnyButWordChar", {"is_global": True})
     tok = lambda: make_operand(model, "x", "Token", True, tag="token x")
     other = lambda: make_operand(model, "xy", "Other", True, tag="pattern xy")
     f_or = model.method(CLS, "__Class", "__or__")
@@ -349,6 +360,20 @@ def _guards(ctx, model, W):
         ("~global word", "~", wg, None, ("cls", "AnyButWordChar", True)), ("~local word", "~", wl, None, ("cls", "AnyButWordChar", False)),
         ("~global non-word", "~", nwg, None, ("cls", "AnyWordChar", True)),
     ]
+    # every metacharacter as a one-character string AND as a token (a Pregex wrapping that one character, i.e. its
+    # regex-escaped text), on either side of the union and as subtrahend: the operand denotes exactly that character
+    from .c01 import escape_of
+    # (token form only for characters whose regex-escaped text is also valid text inside a class; `Pregex('.')`,
+    #  `Pregex('(')` ... are not tokens in the documented sense - "a class defined within pregex.core.tokens" - and the
+    #  pinned constructors read their text `\.` as the range from backslash to '.': outside the documented domain, noted in DESIGN.md)
+    for c in "^-]\\[/$.|(+":
+        t_c = (lambda c=c: make_operand(model, escape_of(model, c), "Token", True, tag=f"token {c!r}"))
+        s_c = (lambda c=c: c)
+        for form, mk in ((("token", t_c),) if c in "^-]\\[/$" else ()) + (("str", s_c),):
+            rows.append((f"regular | {form} {c!r}", "|", reg, mk, ("set", "ac" + c, False)))
+            rows.append((f"{form} {c!r} | regular", "|", mk, reg, ("set", "ac" + c, False)))
+            rows.append((f"regular - {form} {c!r}", "-", reg, mk, ("set", "ac", False)))
+            rows.append((f"{form} {c!r} - regular", "-", mk, reg, ("set", c, False)))
     for label, op, l, r, exp in rows:
         kind, v, hooks = apply(model, W, op, l, r)
         f = f_or if op == "|" else f_sub
@@ -382,3 +407,89 @@ def _guards(ctx, model, W):
     if kind != "ok" or not hooks.handed[-1][2]:
         ctx.violation("R-ALG-GUARD", f_or.relpath, f_or.short, "global | regular", "the is_global setting of a word class is lost in a union", f_or.node.lineno)
     ctx.floor("R-ALG-GUARD", len(rows), 30, "dispatch rows")
+
+
+def digit_chain_jobs(W):
+    """Unions over the digits whose result is exactly 0-9, under eight iteration orders: a union that is merged
+    completely is rewritten to the shorthand \\d, which is NOT equivalent to [0-9] (it also matches non-ASCII decimal
+    digits) - so whether a chain of ranges is merged completely must not depend on the order in which the worklist
+    meets them."""
+    jobs = []
+    digits = "0123456789"
+    dmem = lambda parts: frozenset(digits[i] for a, b in parts for i in range(a, b + 1))
+    divs = [(a, b) for a in range(10) for b in range(a + 1, 10)]
+    for Bs in [(x, y) for x in divs for y in divs if x[0] == 0 and y[1] == 9 and x[1] + 2 <= y[0] - 1]:
+        gaps = [(Bs[i][1] + 1, Bs[i + 1][0] - 1) for i in range(len(Bs) - 1)]
+        ma, mb = dmem(Bs), dmem(gaps)
+        ta, tb = canonical_verbose(ma, False, W, True), canonical_verbose(mb, False, W, True)
+        for l_, lt, r_, rt in ((ma, ta, mb, tb), (mb, tb, ma, ta)):
+            for order in (0, 1, 2, 3, 10, 11, 12, 13):
+                jobs.append((digits, False, "".join(sorted(l_)), lt, "".join(sorted(r_)), rt, "|", order))
+    return jobs
+
+
+def pattern_structure(pattern):
+    """(negated, maximal intervals, shorthand categories) of a class pattern - equal structures are equivalent over all
+    of Unicode; a shorthand versus explicit ranges is a different structure."""
+    import re._parser as _sp
+    try:
+        tree = _sp.parse(pattern)
+    except re.error:
+        return ("unparsable", pattern)
+    items = list(tree)
+    if len(items) == 1 and items[0][0] == _sp.IN:
+        items = list(items[0][1])
+    neg_, iv, cats = False, [], set()
+    for op_, av in items:
+        if op_ == _sp.NEGATE:
+            neg_ = True
+        elif op_ == _sp.LITERAL:
+            iv.append((av, av))
+        elif op_ == _sp.NOT_LITERAL:
+            neg_ = True
+            iv.append((av, av))
+        elif op_ == _sp.RANGE:
+            iv.append(tuple(av))
+        elif op_ == _sp.CATEGORY:
+            cats.add(str(av))
+        else:
+            return ("other", pattern)
+    return (neg_, tuple(merge(iv)), tuple(sorted(cats)))
+
+
+def report_non_confluence(ctx, model, rule, jobs, results):
+    """The pattern emitted for one class expression has the same structure under every iteration order."""
+    f_or = model.method(CLS, "__Class", "__or")
+    f_sub = model.method(CLS, "__Class", "__sub")
+    groups_ = {}
+    for job, (kind, payload) in zip(jobs, results):
+        if kind == "ok":
+            groups_.setdefault(job[:7], []).append((job[7], payload[2]))
+    n = 0
+    for key, lst in sorted(groups_.items()):
+        forms_ = {}
+        for order, pattern in lst:
+            if isinstance(pattern, str):
+                forms_.setdefault(pattern_structure(pattern), []).append((order, pattern))
+        if len(lst) > 1:
+            n += 1
+        if len(forms_) > 1:
+            alpha, neg, ma, ta, mb, tb, op = key
+            f = f_or if op == "|" else f_sub
+            shown = "; ".join(f"set order {v[0][0]}: {v[0][1]!r}" for v in list(forms_.values())[:3])
+            ctx.violation(rule, f.relpath, f.short, "confluence of the interval worklist",
+                          "the pattern emitted for one class expression depends on the iteration order of a set (hash seed): the variants are "
+                          "not the same class text and - where a shorthand is involved - not equivalent", f.node.lineno,
+                          inp=f"{ta} {op} {tb}", detail=shown)
+    return n
+
+
+def confluence_rule(ctx, model, rule):
+    """Stand-alone form (used by C20): the digit-chain unions under eight iteration orders."""
+    W = tables(model)[0]
+    jobs = digit_chain_jobs(W)
+    results = _parallel(ctx, model, sorted(W), jobs)
+    for job, (kind, payload) in zip(jobs, results):
+        ctx.instance(rule, key=("confluence", job[3], job[5], job[7]),
+                     sample=f"{job[3]} | {job[5]} [set order {job[7]}] -> {payload[2] if kind == 'ok' else payload!r}" if job[7] == 0 else None)
+    return report_non_confluence(ctx, model, rule, jobs, results)
